@@ -8,7 +8,7 @@ kind, prop, rel, old, new = sys.argv[1:6]
 within = sys.argv[6] if len(sys.argv) > 6 else None
 ov = overlay_for('/repo', rel, old, new, within)
 rep = run_property(prop, 'quick', '/repo', overlay=ov)
-r, u = rep.refuted(), rep.undecided()
+r, u = rep.new_refuted(), rep.undecided()
 outcome = 'refuted' if r else ('flagged' if (u or rep.errors) else 'silent')
 first = (f"{r[0].rule} {r[0].where}: {r[0].desc[:100]}" if r else (f"{u[0].rule} {u[0].where}: {u[0].desc[:100]}" if u else ''))
 print(outcome, first)
